@@ -323,6 +323,13 @@ func (u *unitCtx) stateUnit(st *TState) (err error) {
 		if terminal {
 			allowed = append(allowed, Eq(res, evTerm("Event_Done")))
 		}
+		if !st.FailOnrecover && !terminal {
+			// a failed action in a state that does not handle the failure leaves the
+			// machine in that state (ErrEventRejected); the state's action is run again
+			// by Recover after the next restart. Under C16's premises (failing services
+			// eventually succeed, restarts recur) that is a retry, not a dead end.
+			allowed = append(allowed, Eq(res, evTerm("Event_ActionFailed")))
+		}
 		x.addObl(name+"#returns", "state", "the action chain returns only events the state accepts (otherwise SendEvent ends in ErrEventRejected and the swap is stuck)",
 			[]string{"C16"}, OblPart{NegGoal: And(rt.reach, Not(Or(allowed...))), NAssume: len(x.c.Assumes), Where: where, Cex: cex}, false)
 		// R2: successor entry invariants
